@@ -12,26 +12,43 @@ RULE = ("Generator: (a) every raster over a 2-letter alphabet with <= 12 cells (
         "alphabet (three values, or two values + NaN) with <= 9 cells (one variant <= 10 in thorough), for every shape h x w incl. 1xN, Nx1, 1x1, neighbourhood 4 and 8; "
         "(b) random rasters up to 24x24 built from topology constructors (spiral, nested rings, comb/U, serpentine/S, tree, checkerboard, "
         "diagonal stripes, diamonds, holes touching the border, staircase, noise) then cropped, flipped, padded and perturbed, mapped to "
-        "well-separated integer values in int32/int64/uint32/float32/float64, NaN cells at densities none/one/some/half/all-but-one/one-whole-value, "
+        "well-separated integer values in int32/int64/uint32/float32/float64 (and, in the narrow#/regress shards, int8/uint8/int16/uint16 incl. "
+        "1xN / Nx1 / checkerboard rasters with MORE components than the dtype can count: > 127, > 255, one > 32767 and one > 65535), NaN cells at densities none/one/some/half/all-but-one/one-whole-value, "
         "C/F/strided/read-only layouts, varied dims, coords and attrs. Oracle: flood fill; labels must induce the same partition of the non-NaN "
         "cells, be > 0, NaN exactly at NaN cells; shape, dims, coords, attrs equal the input's. Non-trivial: some component is not a simple blob "
         "(not row-convex, or not column-convex, or its bounding box holds a same-valued cell of another component), i.e. a raster-scan labelling "
         "needs a late merge; distinct by SHA-1 of the case (random) or enumeration index.")
 ASSUMPTIONS = ["values are integers with |v| <= 9999 (regions compares with isclose(rtol=1e-5, atol=1e-8); integers this small are never 'close')",
-               "dtypes int32/int64/uint32/float32/float64 (labels are stored in the input dtype, narrower integer types cannot hold them)",
+               "dtypes int8/uint8/int16/uint16/int32/int64/uint32/float32/float64, values inside the dtype's range; the number of components may exceed "
+               "what the input dtype can count (labels need not have the input dtype); float32 rasters stay below 2**24 components",
                "NaN only in float rasters; no +-inf", "numpy-backed 2-D DataArray"]
 BUDGET_S = {"quick": 240, "thorough": 900}
 
 DTYPES = ["float64", "int32", "float32", "int64", "uint32"]
+NARROW = {"int8": 127, "uint8": 255, "int16": 32767, "uint16": 65535}     # largest label the dtype itself could hold
+POOL_NARROW = {"int8": [0, 1, 2, 3, 5, -1, -7, 100, 127, -128], "uint8": [0, 1, 2, 3, 5, 7, 100, 255],
+               "int16": [0, 1, 2, 3, 5, -1, -7, 100, 255, 1000, 9999, -9999], "uint16": [0, 1, 2, 3, 5, 7, 100, 255, 1000, 9999]}
 POOL_SIGNED = [0, 1, 2, 3, 5, -1, -7, 100, 255, 1000, 9999, -9999]
 POOL_UNSIGNED = [0, 1, 2, 3, 5, 7, 100, 255, 1000, 9999]
 DIMS = [["y", "x"], ["lat", "lon"], ["dim_0", "dim_1"], ["x", "y"]]
 ATTRS = [{}, {"res": [1, 1], "unit": "m"}, {"nodata": 0, "k": [1, 2], "crs": "EPSG:4326"}]
 
 
+def _pattern(p):
+    """Compact raster spec for long rasters: checkerboard (i+j)%2 -> values[0/1] (1xN / Nx1 = alternating line),
+    then `flips` = [[i, j, value]] overwritten.  Keeps a 1x32770 case a few bytes of JSON."""
+    h, w = p["h"], p["w"]
+    v0, v1 = p["values"]
+    a = np.where((np.add.outer(np.arange(h), np.arange(w)) % 2) == 0, v0, v1).astype(p["dtype"])
+    for (i, j, v) in p.get("flips", []):
+        a[i, j] = v
+    return a
+
+
 def _mk(case):
     import xarray as xr
-    a = S.apply_layout(dec_arr(case["raster"]), case.get("layout", "C"))
+    base = dec_arr(case["raster"]) if "raster" in case else _pattern(case["pattern"])
+    a = S.apply_layout(base, case.get("layout", "C"))
     h, w = a.shape
     dims = tuple(case.get("dims") or ("y", "x"))
     coords = {}
@@ -82,6 +99,12 @@ def body_regions(case, ctx):
         r.label("kind=" + case["kind"], "layout=" + case.get("layout", "C"))
     if r.nt:
         r.label("needs_merge.n=%d" % n)
+    if str(a.dtype) in NARROW:
+        r.label("narrow_int", "narrow_int.components_%s_dtype_max" % ("exceed" if ncomp > NARROW[str(a.dtype)] else "within"))
+    big = h * w > 2000
+
+    def show(x):
+        return "<%dx%d>" % (h, w) if big else x
 
     out = regions(da, neighborhood=n)
 
@@ -104,6 +127,7 @@ def body_regions(case, ctx):
     o = np.asarray(out.data)
     oflat = o.ravel().tolist()     # row-major
     validf = [bool(l) for l in lab]
+    nonpos = False
     for k, ok in enumerate(validf):
         v = oflat[k]
         isn = v != v
@@ -111,21 +135,23 @@ def body_regions(case, ctx):
             return r.fail("regions.label_is_nan", "non-NaN cell (%d,%d) got NaN\nin=%s\nout=%s" % (k // w, k % w, vals, o.tolist()))
         if not ok and not isn:
             return r.fail("regions.nan_not_kept", "NaN cell (%d,%d) got label %r\nin=%s\nout=%s" % (k // w, k % w, v, vals, o.tolist()))
-        if ok and not v > 0:
-            return r.fail("regions.label_not_positive", "cell (%d,%d) label %r\nin=%s\nout=%s" % (k // w, k % w, v, vals, o.tolist()))
+        if ok and not v > 0 and not nonpos:
+            nonpos = True
+            r.fail("regions.label_not_positive", "cell (%d,%d) label %r (raster dtype %s, %d components)\nin=%s\nout=%s" % (
+                k // w, k % w, v, a.dtype, ncomp, show(vals), show(o.tolist())))
     split, merged = ff.partition_diff(oflat, lab)
     if split is not None:
         p, q = split
         r.fail("regions.component_split.n%d" % n,
                "cells (%d,%d) and (%d,%d) are joined by a %d-path of value %r but carry labels %r and %r\nin=%s\nout=%s\nflood=%s" % (
-                   p // w, p % w, q // w, q % w, n, flat_vals[p], oflat[p], oflat[q], vals, o.tolist(),
-                   [lab[i * w:(i + 1) * w] for i in range(h)]))
+                   p // w, p % w, q // w, q % w, n, flat_vals[p], oflat[p], oflat[q], show(vals), show(o.tolist()),
+                   show([lab[i * w:(i + 1) * w] for i in range(h)])))
     if merged is not None:
         p, q = merged
         r.fail("regions.components_merged.n%d" % n,
                "cells (%d,%d) [value %r] and (%d,%d) [value %r] are not joined by a %d-path of equal value but share label %r\nin=%s\nout=%s\nflood=%s" % (
-                   p // w, p % w, flat_vals[p], q // w, q % w, flat_vals[q], n, oflat[p], vals, o.tolist(),
-                   [lab[i * w:(i + 1) * w] for i in range(h)]))
+                   p // w, p % w, flat_vals[p], q // w, q % w, flat_vals[q], n, oflat[p], show(vals), show(o.tolist()),
+                   show([lab[i * w:(i + 1) * w] for i in range(h)])))
     return r
 
 
@@ -154,6 +180,52 @@ def regions_cases(draw, max_side, dtypes, layouts):
             "attrs": draw(st.sampled_from(ATTRS)), "layout": draw(st.sampled_from(layouts)),
             "scalar_coord": draw(st.booleans())}
     return case
+
+
+# ---------------------------------------------------------------- narrow integer dtypes
+
+@st.composite
+def narrow_cases(draw, max_side, dtypes):
+    """int8/uint8/int16/uint16 rasters.  Half: the topology grids of the other shards in a narrow dtype (component count within
+    the dtype's range); half: alternating lines / checkerboards with slightly fewer or MORE components than the dtype can count
+    (8-bit only here: > 32767 components is one fixed case in the regress shard), a few cells overwritten."""
+    dtype = draw(st.sampled_from(dtypes))
+    pool = POOL_NARROW[dtype]
+    if NARROW[dtype] > 255 or draw(st.booleans()):
+        g, k, kind = draw(topo.topo_grid(max_side))
+        h, w = len(g), len(g[0])
+        pal = draw(st.lists(st.sampled_from(pool), min_size=k, max_size=k, unique=True))
+        case = {"sub": "regions", "raster": {"dtype": dtype, "data": [[pal[v] for v in row] for row in g]}, "kind": kind}
+    else:
+        lim = NARROW[dtype]
+        ncell = lim + draw(st.integers(-3, 40))
+        shape = draw(st.sampled_from(["1xN", "Nx1", "checker"]))
+        if shape == "1xN":
+            h, w = 1, ncell
+        elif shape == "Nx1":
+            h, w = ncell, 1
+        else:
+            h = draw(st.integers(2, 16))
+            w = -(-ncell // h)
+        v = draw(st.lists(st.sampled_from(pool), min_size=3, max_size=3, unique=True))
+        flips = draw(st.lists(st.tuples(st.integers(0, h - 1), st.integers(0, w - 1), st.sampled_from(v)).map(list), max_size=4))
+        case = {"sub": "regions", "pattern": {"dtype": dtype, "h": h, "w": w, "values": v[:2], "flips": flips}, "kind": "overflow_" + shape}
+    case.update({"n": draw(st.sampled_from([4, 4, 8])), "layout": draw(st.sampled_from(["C", "C", "F"])),
+                 "attrs": draw(st.sampled_from(ATTRS)), "y": draw(st.one_of(st.none(), S.axis_coords(h))),
+                 "x": draw(st.one_of(st.none(), S.axis_coords(w)))})
+    return case
+
+
+def regress_narrow_cases():
+    """Fixed cases for the repaired defect 'labels stored in the raster's dtype wrap around' (fix: /repo 3a335a3)."""
+    for dtype, lim in NARROW.items():
+        shapes = [(1, lim + 1), (lim + 2, 1)]
+        if lim <= 255:
+            shapes += [(1, lim + 2), (12, -(-(lim + 6) // 12)), (1, 2 * lim + 5)]
+        for (h, w) in shapes:
+            for n in ((4, 8) if lim <= 255 else (4,)):
+                yield {"sub": "regions", "pattern": {"dtype": dtype, "h": h, "w": w, "values": [0, 1]}, "n": n,
+                       "kind": "regress_narrow", "enum": ["regress_narrow", dtype, h, w]}
 
 
 # ---------------------------------------------------------------- enumerations
@@ -188,7 +260,7 @@ def enum_cases(variant, h, w, lo, hi, sub="regions", key="n"):
 def _enum_shard(variant, chunks, body, sub, key):
     def run(ctx):
         for (h, w, lo, hi) in chunks:
-            n = drive_enum(ctx, body, enum_cases(variant, h, w, lo, hi, sub, key),
+            drive_enum(ctx, body, enum_cases(variant, h, w, lo, hi, sub, key),
                            space="%s %dx%d [%d,%d) x {4,8}" % (variant, h, w, lo, hi), size=2 * (hi - lo))
             if ctx.violations or ctx.budget_exhausted:
                 break
@@ -220,6 +292,11 @@ def shards(tier):
         layouts = ["C", "C", lay[i % 3]]
         out.append(("rand#%d" % i, lambda ctx, dts=dts, layouts=layouts: drive_hypothesis(
             ctx, body_regions, regions_cases(side, dts, layouts), per, name="rand")))
+    out.append(("regress_narrow_int_labels", lambda ctx: drive_enum(ctx, body_regions, regress_narrow_cases(),
+                                                                  space="narrow-int label overflow fixtures", size=24)))
+    for i, dts in enumerate([["int8", "uint8"], ["int16", "uint16"]]):
+        out.append(("narrow#%d" % i, lambda ctx, dts=dts: drive_hypothesis(
+            ctx, body_regions, narrow_cases(side, dts), per // 2, name="narrow")))
     out += enum_shards(tier, plan, body_regions, "regions", "n")
     return out
 
@@ -228,6 +305,6 @@ LEVEL_TEXT = ("Bounded-exhaustive plus randomised search: every 2-letter raster 
               "3-letter raster (incl. NaN as a letter) with <= 9 cells (one variant <= 10 in thorough), both neighbourhoods, and thousands of random rasters up to 24x24 built from "
               "spiral / ring / comb / serpentine / checkerboard / diagonal / hole constructors over five dtypes, NaN densities, layouts and "
               "coordinate/attr variants, each compared with a flood-fill partition. Decides the property inside the enumerated spaces, samples it outside.")
-LEVEL_NOTE = ("Assumes small integer values (never isclose to each other) in int32/int64/uint32/float32/float64; oracle is an independent flood fill; "
+LEVEL_NOTE = ("Assumes small integer values (never isclose to each other) in int8..int64/uint8..uint32/float32/float64, incl. more components than a narrow dtype can count; oracle is an independent flood fill; "
               "absence of violations beyond the enumerated sizes is sampled, not proven.")
 TECHNIQUE = "property-based testing (Hypothesis, topology generators) + exhaustive small-raster enumeration against a flood-fill reference"
